@@ -11,6 +11,7 @@ use crate::util::{Buf, Rd, J};
 use std::collections::BTreeMap;
 use std::path::{Path, PathBuf};
 
+pub const L_REFUSED_FLUSH: u8 = 40;
 pub const JOB_C03_RUN: u8 = 30;
 pub const JOB_C03_EXAMINE: u8 = 31;
 pub const JOB_C16_RUN: u8 = 32;
@@ -212,6 +213,17 @@ fn c03_run(bw: &mut BWorker, payload: &[u8], io: &mut WorkerIo) -> Vec<u8> {
         let mut counters: BTreeMap<String, i64> = BTreeMap::new();
         let snapdir = snap.clone();
         let mut hook = |cfg: &BCfg, st: &mut BState, pos: usize, l: &Letter, ok: bool| -> Option<String> {
+            if l.kind == L_REFUSED_FLUSH {
+                // a flush whose first write is refused (whatever it answers); later durability calls
+                // that return Ok are crash points like any other
+                if st.handle(cfg, 0, 0).is_ok() {
+                    shim.arm(1, 0);
+                    let _ = st.exec(cfg, &Letter { kind: L_FLUSH, map: 0, handle: H_FIRST, key: 0, val: 0 });
+                    shim.disarm();
+                    *counters.entry("refused_flush_letters".into()).or_insert(0) += 1;
+                }
+                return None;
+            }
             if !BCfg::is_durability(l) || !ok {
                 return None;
             }
@@ -373,6 +385,8 @@ pub fn c03_letters() -> Vec<Letter> {
     // a read-only call between the updates and the durability call must not make the latter a no-op
     v.push(Letter { kind: L_FILL, map: 0, handle: H_FIRST, key: 0, val: 0 });
     v.push(Letter { kind: L_GET, map: 0, handle: H_FIRST, key: 0, val: 0 });
+    // a flush that the operating system refuses: the next durability call that returns Ok must still be durable
+    v.push(Letter { kind: L_REFUSED_FLUSH, map: 0, handle: H_FIRST, key: 0, val: 0 });
     v
 }
 
